@@ -77,6 +77,12 @@ pub enum Variant {
     /// bank's address sorts above / below the first one's
     EmodeTwoLiabsAbove,
     EmodeTwoLiabsBelow,
+    /// the collateral bank caps the value that counts for *initial* margin at $50, far below its deposits; the cap
+    /// has no say in maintenance health, which decides about liquidation
+    CappedCollateral,
+    /// the liquidatee holds a third collateral leg whose oracle has not been updated for an hour (the two banks
+    /// of the liquidation are fresh): its maintenance health cannot be established, so nothing may be liquidated
+    ThirdLegStale,
 }
 
 fn emode_entry(tag: u16, i: f64, m: f64) -> marginfi_type_crate::types::EmodeEntry {
@@ -178,6 +184,11 @@ pub fn build(c: &Cfg, tag: &str) -> Option<Built> {
     if !go(&mut s, Action::Borrow { u: 0, b: 1, amt: usd(1, l_price, 300) + 1 }) {
         return { if std::env::var("VERIF_C05_DEBUG").is_ok() { eprintln!("c05 build failed at site 5: {:?}", c); } None };
     }
+    if c.variant == Variant::ThirdLegStale {
+        if !go(&mut s, Action::Deposit { u: 0, b: 2, amt: usd(2, 100_000_000, 150), up_to_limit: None }) {
+            return None;
+        }
+    }
     // liquidator
     match c.liquidator {
         Liquidator::LargeDepositInDebtBank => {
@@ -272,6 +283,9 @@ pub fn build(c: &Cfg, tag: &str) -> Option<Built> {
         }
         _ => {}
     }
+    if c.variant == Variant::CappedCollateral {
+        world::edit_bank(&mut s, &w.banks[0].key, |b| b.config.total_asset_value_init_limit = 50);
+    }
     // steer the liquidatee's maintenance health with the debt asset's price
     let acct = w.users[0].account;
     let hm = |s: &Store| health::health(&judged_state(c, &w, s), &acct, Req::Maintenance).unwrap().health();
@@ -309,6 +323,12 @@ pub fn build(c: &Cfg, tag: &str) -> Option<Built> {
             while go(&mut s, Action::Borrow { u: 1, b: 2, amt: step }) {}
             step /= 4;
         }
+    }
+    if c.variant == Variant::ThirdLegStale {
+        let keep = s.get(&w.banks[2].oracle.unwrap()).cloned().unwrap();
+        s.advance(3_600);
+        world::refresh_oracles(&mut s, &w);
+        s.set(w.banks[2].oracle.unwrap(), keep);
     }
     // the time-weighted prices move away from spot only now: maintenance health (spot) is unchanged
     let ema_pct = match c.variant {
@@ -375,6 +395,10 @@ fn judge(c: &Cfg, b: &Built, amt: u64, found: &mut Vec<Found>) -> (bool, u64) {
         return (false, r.code);
     }
     // eligibility
+    if let Some(e) = &pre_h.engine_err {
+        fail("C05.only_when_unhealthy", format!("liquidation of {} succeeded although the liquidatee's maintenance health cannot be established ({:?} on one of its positions)", amt, e));
+        return (true, 0);
+    }
     if pre_h.health() > pre_h.allow.clone() {
         fail("C05.only_when_unhealthy", format!("liquidation of {} succeeded although reference maintenance health before was {:.9} > 0", amt, rf::qf64(&pre_h.health())));
     }
@@ -544,6 +568,16 @@ pub fn configs(tier: Tier) -> Vec<Cfg> {
                     for &conf in confs {
                         v.push(Cfg { pair, level, liquidator, asset_w_maint: aw, liab_w_maint: lw, asset_conf_pp: conf, variant: Variant::Plain });
                     }
+                }
+            }
+        }
+    }
+    // a collateral-value cap that must not reach maintenance health, and an unrelated collateral leg gone stale
+    for variant in [Variant::CappedCollateral, Variant::ThirdLegStale] {
+        for &pair in pairs {
+            for &level in &[Level::SlightlyPositive, Level::SlightlyNegative, Level::Negative] {
+                for &(aw, lw) in &[(0.9, 1.1), (0.6, 1.0)] {
+                    v.push(Cfg { pair, level, liquidator: Liquidator::LargeDepositInDebtBank, asset_w_maint: aw, liab_w_maint: lw, asset_conf_pp: 0, variant });
                 }
             }
         }
